@@ -18,6 +18,7 @@ func init() {
 			"MTU in {3,4,5,6,7,8,16,17,100}; unit types {1,5,7,8,9,12} (+6,23 in short sequences); sizes {2,3,MTU-1,MTU,MTU+1,2MTU+1}; bodies contain no zero byte (Annex-B conformant: no start-code emulation, no trailing zero); a final type-1 unit is appended so that held-back parameter sets have a next unit; a separate scenario sweeps SPS/PPS sizes so that STAP-A(SPS,PPS) is one byte under, exactly at and one byte over every MTU 9..40",
 			"the hold-back anomalies of H264Payloader for parameter sets that are not an SPS immediately followed by a PPS, and the silent drop of a STAP-A larger than the MTU, are listed known findings matched by an exact defect model of the hold-back state machine",
 			"wide scenario: every NAL type 1-23 x NRI 0-3 alone and after an SPS/PPS pair; units of 300, 257*(MTU-2)+1 (more than 256 fragments), 70000 bytes for MTU {5,100,1200}; SPS/PPS of {6,255,256,257,700,32766} x {6,255,256,300,32765} bytes at MTU 1200 and 65535; all sequences of 5-6 units over {slice 2B, slice MTU+1, SPS+PPS pair} split over three calls",
+			"unit bodies: EVERY body of 1-7 bytes (thorough: 8) over {00,01,03,FF} that is legal inside a NAL unit (no 00 00 00 / 00 00 01, no trailing 00) as a type-5 unit between two other units, 3- and 4-byte start codes, MTU {5,100}",
 			"decoder side: F bit 0, FU-A trains of 2-4 fragments with every split point of units of up to 8 bytes",
 		},
 		Scenarios: []mc.Scenario{
@@ -25,6 +26,7 @@ func init() {
 			{Name: "stapa-at-the-mtu-boundary", Tiers: "qt", ShardDepth: 3, Run: c10StapABoundary},
 			{Name: "all-types-large-units-long-sequences", Tiers: "qt", ShardDepth: 3, Run: c10Wide},
 			{Name: "reference-encoder-to-depacketizer", Tiers: "qt", ShardDepth: 3, Run: c10Decoder},
+			{Name: "unit-bodies-with-zero-and-one-bytes", Tiers: "qt", ShardDepth: 3, Run: c10Bodies},
 		},
 	})
 }
@@ -475,4 +477,29 @@ func c10Wide(c *mc.Ctx) {
 		codes = append(codes, 4)
 		c10Core(c, mtu, disableStapA, avc, raw, codes, c.Pick(3)*2)
 	}
+}
+
+// c10Bodies: NAL unit bodies made of the bytes the start-code scanner looks at.
+func c10Bodies(c *mc.Ctx) {
+	maxLen := 7
+	if c.Thorough() {
+		maxLen = 8
+	}
+	n := 1 + c.Pick(maxLen)
+	sym := []byte{0x00, 0x01, 0x03, 0xFF}
+	body := make([]byte, n)
+	for i := range body {
+		body[i] = mc.From(c, sym)
+		if i >= 2 && body[i-2] == 0 && body[i-1] == 0 && body[i] <= 1 {
+			c.Prune() // start-code emulation: not a legal NAL unit
+		}
+	}
+	if body[n-1] == 0 {
+		return // a trailing zero belongs to the next start code
+	}
+	mtu := mc.From(c, []int{5, 100})
+	code := 3 + c.Pick(2)
+	unit := append([]byte{0x65}, body...)
+	raw := [][]byte{ref.H264Unit(1, 2, 3, 7), unit, ref.H264Unit(1, 2, 2, 0xEE)}
+	c10Core(c, mtu, false, c.Bool(), raw, []int{4, code, 7 - code}, 0)
 }
